@@ -33,12 +33,17 @@ type stats struct {
 	rejected         map[string]int
 	acceptedCorrect  map[string]int
 	sigCount         map[string]int
+	reduceCases      int
+	reduceExec       int
+	reduceAgree      map[string]int
+	reduceDisagree   map[string]int
 }
 
 func newStats() *stats {
 	return &stats{byOp: map[string]int{}, byPattern: map[string]int{}, insts: map[string]int{}, storage: map[string]int{},
 		foreign: map[string]int{}, infoDisagree: map[string]int{}, undefinedDiffers: map[string]int{},
-		rejected: map[string]int{}, acceptedCorrect: map[string]int{}, sigCount: map[string]int{}}
+		rejected: map[string]int{}, acceptedCorrect: map[string]int{}, sigCount: map[string]int{},
+		reduceAgree: map[string]int{}, reduceDisagree: map[string]int{}}
 }
 
 func (st *stats) add(f func()) {
@@ -85,6 +90,12 @@ func replay(args []string) {
 				return e
 			}
 			scalarCase(c, line, out, st)
+		case "reduce":
+			c := &rCase{}
+			if e := json.Unmarshal(line, c); e != nil {
+				return e
+			}
+			reduceCase(c, line, out, st)
 		case "cont":
 			c := &cCase{}
 			if e := json.Unmarshal(line, c); e != nil {
@@ -110,5 +121,6 @@ func replay(args []string) {
 		"mixed_order_executions": st.mixedOrder, "mismatches": st.mism, "by_op": st.byOp, "by_pattern": st.byPattern,
 		"instantiations": st.insts, "storage": st.storage, "foreign_defects": st.foreign, "info_disagree": st.infoDisagree,
 		"undefined_differs": st.undefinedDiffers, "rejected_by_panic": st.rejected, "accepted_correct": st.acceptedCorrect,
-		"sig_counts": st.sigCount, "tolerance_factor": tolK})
+		"sig_counts": st.sigCount, "tolerance_factor": tolK, "reduce_cases": st.reduceCases, "reduce_executions": st.reduceExec,
+		"reduce_elem_receiver_agrees": st.reduceAgree, "reduce_elem_receiver_disagrees": st.reduceDisagree})
 }
